@@ -177,6 +177,44 @@ _ARGS = {
     'Parameter.add_to': ['C08'],
     'BooleanFlag.add_to': ['C08'],
 }
+# the remaining functions the programs run through (header, locus construction, dispatch), attributed the same way
+_MORE = {
+    ('mchap.application.baseclass', 'program.header'): ['C07', 'C08'],
+    ('mchap.application.baseclass', 'program.header_contigs'): ['C07'],
+    ('mchap.application.assemble', 'program.header_contigs'): ['C07'],
+    ('mchap.application.assemble', 'program.loci'): ['C12', 'C08'],
+    ('mchap.application.assemble', 'program.cli'): ['C08', 'C15'],
+    ('mchap.application.call', 'program.cli'): ['C08'],
+    ('mchap.application.call_exact', 'program.cli'): ['C08'],
+    ('mchap.application.call_pedigree', 'program.cli'): ['C08', 'C17'],
+    ('mchap.application.cli', 'main'): ['C08'],
+    ('mchap.application.atomize', 'main'): ['C20'],
+    ('mchap.application.find_snvs', 'format_genotype_calls'): ['C19'],
+    ('mchap.io.loci', 'read_bed4'): ['C12', 'C08'],
+    ('mchap.io.loci', '_parse_bed4_line'): ['C12'],
+    ('mchap.io.loci', 'Locus.set'): ['C12'],
+    ('mchap.io.loci', 'Locus.range'): ['C12'],
+    ('mchap.io.loci', 'Locus.from_region_string'): ['C12'],
+    ('mchap.io.loci', 'Locus.format_variants'): ['C12'],
+    ('mchap.io.loci', 'LocusPrior.set'): ['C12'],
+    ('mchap.io.loci', 'LocusPrior.set_sequence'): ['C12'],
+    ('mchap.io.loci', 'LocusPrior.set_variants'): ['C12'],
+    ('mchap.io.util', 'qual_of_prob'): ['C07', 'C14'],
+    ('mchap.io.vcf.contigs', 'ContigHeader.__str__'): ['C07'],
+    ('mchap.io.vcf.filters', 'VariantFilter.__str__'): ['C07'],
+    ('mchap.io.vcf.formatfields', 'FormatField.__str__'): ['C07'],
+    ('mchap.io.vcf.infofields', 'InfoField.__str__'): ['C07'],
+}
+for _fn in ('ContigHeader.__str__', 'MetaHeader.__str__', 'columns', 'commandline', 'filedate', 'fileformat', 'phasing', 'randomseed', 'reference', 'source'):
+    _MORE[('mchap.io.vcf.headermeta', _fn)] = ['C07', 'C08']
+for (_mod, _name), _pids in _MORE.items():
+    for _pid in _pids:
+        _entry = [e for e in HELPERS[_pid] if e[0] == _mod]
+        if _entry:
+            if _name not in _entry[0][1]:
+                _entry[0][1].append(_name)
+        else:
+            HELPERS[_pid].append((_mod, [_name]))
 for _name, _pids in _ARGS.items():
     for _pid in _pids:
         _entry = [e for e in HELPERS[_pid] if e[0] == 'mchap.application.arguments']
